@@ -336,10 +336,12 @@ func compensates(c, e *effect) bool {
 			_, a2 := callRecvArgs(ea.Common())
 			return len(a1) == 1 && len(a2) == 1 && sameValue(a1[0], a2[0])
 		}
-	case c.Kind == "overlay" && strings.Contains(c.What, ".CancelSet"):
-		// dropping the object from the overlay (cache and pending update) undoes every change made to it
-		return strings.HasPrefix(c.Obj, e.Obj+".Key()") || c.Obj == e.Obj || e.Kind == "overlay" && e.Obj != "" && strings.HasPrefix(c.Obj, e.Obj)
 	}
+	// CancelSet / CancelSetFinality is deliberately NOT a compensation: it drops the
+	// record from the overlay altogether, i.e. it goes back to the COMMITTED value and
+	// with that also loses updates made to the record earlier in the block (a reward
+	// issued in this block's BeginBlock, an earlier withdrawal). An error exit that
+	// relies on it is reported unless the failing step is shown not to fail.
 	return false
 }
 
@@ -719,6 +721,8 @@ func a3(w *World, r *Report) {
 	feeOK, feeWhy := feeSide()
 	delOK, delWhy := w.unstakeSide()
 	r.Check(feeOK, "A-3", "side-condition:fee-debit-cannot-fail", "commonValidation1 rejects balance < gas x price + amount with the fee expression postRunTrx debits, and CheckBalance is `amount > balance -> error`: the fee debit after the controller ran cannot fail", "the side condition of the fee-debit step no longer holds: "+feeWhy)
+	creditOK, creditWhy := w.creditSide()
+	r.Check(creditOK, "A-3", "side-condition:reward-credit-cannot-fail", "crediting a withdrawn reward to the sender cannot fail: Account.AddBalance fails only for a negative amount and AcctCtrler.Reward has no other failing step for an account that exists (the sender, loaded from the same overlay by NewTrxContext); so exeWithdraw's cancel branch, which would also drop earlier updates of the reward record, is dead", "the side condition of the reward-credit step no longer holds: "+creditWhy)
 	r.Check(delOK, "A-3", "side-condition:delegatee-delete-cannot-miss", "exeUnstaking deletes the key of the delegatee it has just obtained from the same overlay: the delete cannot miss", "the side condition of the delete-delegatee step no longer holds: "+delWhy)
 	// the post-run step: postRunTrx and the helpers it calls
 	postRun := map[*ssa.Function]bool{}
@@ -742,6 +746,9 @@ func a3(w *World, r *Report) {
 			}
 		}
 		if delOK && w.isDelegateeDelete(call) {
+			return true
+		}
+		if creditOK && reRewardSender.MatchString(w.canonCall(call.Common(), 0)) {
 			return true
 		}
 		return false
@@ -940,4 +947,32 @@ func uniqStrings(xs []string) []string {
 		}
 	}
 	return out
+}
+
+var reRewardSender = regexp.MustCompile(`^p\d\.AcctHandler\.Reward\(p\d\.Sender\.Address, .*, p\d\.Exec\)$`)
+
+// creditSide: the credit primitive fails only for a negative amount, and the
+// account controller's Reward fails only through it or for a missing account.
+func (w *World) creditSide() (bool, string) {
+	ab := w.Method(pkgCT, "Account", "AddBalance")
+	rw := w.Method("ctrlers/account", "AcctCtrler", "Reward")
+	if ab == nil || rw == nil {
+		return false, "Account.AddBalance / AcctCtrler.Reward not found"
+	}
+	o := w.runUnder(ab, nil, nil, A("p0.Sign()", ">=", "0"))
+	if !o.complete || !o.allConsulted || o.ok == 0 {
+		return false, "Account.AddBalance does not test the sign of the amount"
+	}
+	if o.err > 0 {
+		return false, "Account.AddBalance can fail for a non-negative amount"
+	}
+	// Reward: under "the account exists" and "AddBalance succeeded" no error path remains
+	o2 := w.runUnder(rw, w.deadErrEval, nil, AR(`[fF]indAccount\([^()]*\)$`, "!=", "^nil$"), AR(`\.AddBalance\(.*\)$`, "==", "^nil$"))
+	if !o2.complete || o2.ok == 0 {
+		return false, fmt.Sprintf("AcctCtrler.Reward has no successful path (complete=%v ok=%d err=%d other=%d)", o2.complete, o2.ok, o2.err, o2.other)
+	}
+	if o2.err > 0 {
+		return false, "AcctCtrler.Reward can fail although the account exists and the credit succeeded"
+	}
+	return true, ""
 }
